@@ -159,7 +159,10 @@ func evalC15Retry(c c15rCase) (f *Failure, nontrivial bool) {
 			tok := i + 1
 			desc := fmt.Sprintf("emit %d (%s at %d ms, client %s at that moment)", tok, e.Kind, e.AtMs, emitState[tok])
 			if e.Kind == "volatile" {
-				if emitState[tok] == "offline" && count[tok] != 0 {
+				// offline beyond doubt: before Connect was called, or inside the outage. (At the instants around a connect the socket's state may
+				// change between the harness looking at it and the library looking at it.)
+				offline := e.AtMs < 0 || c.DownAtMs >= 0 && e.AtMs >= c.DownAtMs+60 && e.AtMs < c.upAt()
+				if offline && emitState[tok] == "offline" && count[tok] != 0 {
 					res = fail("volatile-dropped-offline", fmt.Sprintf("%s was delivered although it is volatile and the socket was disconnected", desc))
 					return
 				}
